@@ -308,7 +308,7 @@ func blocks(quick bool) []blockSpec {
 		c05.Raw:     {ref.Bytes("raw bytes"), ref.Bytes(""), ref.Bytes("\x00")},
 	}
 	if !quick {
-		for _, v := range ref.Trees(3, ref.LeavesTiny()) {
+		for _, v := range ref.Trees(4, ref.LeavesTiny()) {
 			for _, codec := range []uint64{c05.DagCbor, c05.DagJson} {
 				if c05.InDomain(codec, v) {
 					vals[codec] = append(vals[codec], v)
